@@ -1,5 +1,5 @@
 \* code -> spec: recorded histories (constants: 5 snapshot slots, 8 load handles; the model's bounds do not apply)
-CONSTANTS Slots = {1, 2, 3, 4, 5}  Handles = {1, 2, 3, 4, 5, 6, 7, 8}  MaxLevel = 999  MaxNodes = 99999  MutNodes = {}
+CONSTANTS Slots = {1, 2, 3, 4, 5, 6}  Handles = {1, 2, 3, 4, 5, 6, 7, 8}  MaxLevel = 999  MaxNodes = 99999  MutNodes = {}
 SPECIFICATION TSpec
 CONSTRAINT Progress
 POSTCONDITION Report
